@@ -699,3 +699,77 @@ def c02_protection_roles(seed=1):
         if who in ("user", "so"): h.op(f"logout @{k}")
     h.op("fini")
     return h.text()
+
+
+# ---------------------------------------------------------------------------------------------------------
+# C08: history attributes of keys derived with the ASYMMETRIC mechanisms (DH is covered by K13): ECDH on P-256 and on X25519
+# ---------------------------------------------------------------------------------------------------------
+def c08_derive_asym_matrix(seed=1):
+    """Base keys: EC P-256 and X25519 private keys, IMPORTED (C_CreateObject: ALWAYS_SENSITIVE / NEVER_EXTRACTABLE false whatever their flags) and GENERATED on the token (true when
+    generated sensitive / unextractable) x CKA_SENSITIVE x CKA_EXTRACTABLE of the base key x the derived key's template; CKA_SENSITIVE, EXTRACTABLE, NEVER_EXTRACTABLE,
+    ALWAYS_SENSITIVE, LOCAL of every derived key are read back."""
+    from .gen import P256_G, p256_mul, X25519_OID
+    rng = random.Random(seed)
+    h = OpsGen(rng)
+    h.prologue(1)
+    t = h.toks[0]
+    k = h.open(t, True); h.login(k, t, 'user')
+    U = ul
+    Q = p256_mul(11, P256_G); pt = "04" + Q[0].to_bytes(32, "big").hex() + Q[1].to_bytes(32, "big").hex()
+    xpeer = bytes(rng.randrange(256) for _ in range(32)).hex()
+    bases = []     # (ref, peer public data)
+    for sens, extr in itertools.product(("00", "01"), ("00", "01")):
+        d = rng.randrange(1, 2 ** 255)
+        b = h.op(f"create @{k} 0={U(3)} 100={U(3)} 3={hx(h.new_label())} 180={P256} 11={d.to_bytes(32, 'big').hex()} 10c=01 103={sens} 162={extr}"); h.minted += 1
+        bases.append((f"@{b}", pt))
+        b = h.op(f"create @{k} 0={U(3)} 100={U(0x40)} 3={hx(h.new_label())} 180={X25519_OID} 11={bytes(rng.randrange(256) for _ in range(32)).hex()} 10c=01 103={sens} 162={extr}"); h.minted += 1
+        bases.append((f"@{b}", xpeer))
+        g = h.op(f"genpair @{k} 1040 180={P256} 3={hx(h.new_label())} / 3={hx(h.new_label())} 10c=01 103={sens} 162={extr}"); h.minted += 2
+        bases.append((f"@{g}.1", pt))
+        g = h.op(f"genpair @{k} 1055 180={X25519_OID} 3={hx(h.new_label())} / 3={hx(h.new_label())} 10c=01 103={sens} 162={extr}"); h.minted += 2
+        bases.append((f"@{g}.1", xpeer))
+    for ref, peer in bases:
+        h.op(f"getattr @{k} {ref} 103:1 162:1 164:1 165:1 163:1")
+        for tp in ("", "103=01", "162=00", "103=01 162=00", "103=00 162=01"):
+            u = h.op(f"derive @{k} 1050:ecdh(1,{peer}) {ref} 0={U(4)} 100={U(0x10)} 161={U(16)} 3={hx(h.new_label())} {tp}"); h.minted += 1
+            h.op(f"getattr @{k} @{u} 103:1 162:1 164:1 165:1 163:1"); h.op(f"destroy @{k} @{u}")
+    h.op("fini")
+    return h.text()
+
+
+# ---------------------------------------------------------------------------------------------------------
+# C01 / C11: a copy that is MORE private than its source dies with the login like every private object
+# ---------------------------------------------------------------------------------------------------------
+def c01_copy_upgrade_scope(seed=1):
+    """Public data objects and keys (session and token) are copied with CKA_PRIVATE = true (and, as control, without); then C_Logout, and every handle is used: C_GetAttributeValue,
+    C_GetObjectSize, C_DestroyObject through the same session, through a second session, through a session of ANOTHER token whose user is logged in; then C_Login again and the
+    handles are used once more (a handle that died stays dead)."""
+    rng = random.Random(seed)
+    h = OpsGen(rng)
+    h.prologue(2)
+    t, t2 = h.toks[0], h.toks[1]
+    U = ul
+    k = h.open(t, True); k2 = h.open(t, True); kb = h.open(t2, True)
+    h.login(kb, t2, 'user')
+    for tok in ("00", "01"):
+        h.login(k, t, 'user')
+        srcs = [h.op(f"create @{k} 0={U(0)} 1={tok} 2=00 3={hx(h.new_label())} 11={'a7' * 20}"),
+                h.op(f"create @{k} 0={U(4)} 100={U(0x1f)} 1={tok} 2=00 3={hx(h.new_label())} 11={'3c' * 16} 162=01 103=00 104=01")]
+        h.minted += 2
+        copies = []
+        for s in srcs:
+            for tp in ("2=01", f"2=01 3={hx(h.new_label())}", "", f"1={'01' if tok == '00' else '00'} 2=01"):
+                c = h.op(f"copy @{k} @{s} {tp}"); h.minted += 1
+                copies.append(c)
+                h.op(f"getattr @{k} @{c} 0:8 1:1 2:1 3:64")
+        h.op(f"logout @{k}")
+        for c in copies + srcs:
+            for via in (k, k2, kb):
+                h.op(f"getattr @{via} @{c} 0:8 1:1 2:1"); h.op(f"objsize @{via} @{c}")
+        h.login(k, t, 'user')
+        for c in copies + srcs:
+            h.op(f"getattr @{k} @{c} 0:8 1:1 2:1 3:64")
+            h.op(f"destroy @{k} @{c}")
+        h.op(f"logout @{k}")
+    h.op("fini")
+    return h.text()
